@@ -432,7 +432,12 @@ def make_complex_model(name, params):
 
         def choose(G, node, status, parameters):
             return {"S": "E", "E": "I", "I": "R"}[status[node]]
-        return rate, choose, (lambda G, node, status, parameters: _nbrs(G, node)), ["S", "E", "I", "R"]
+
+        def infl(G, node, status, parameters):
+            # a covering set that depends on the node's CURRENT (new) status: a node that has just become
+            # E changes nobody's rate; one that became I or R changes its neighbours' rates
+            return _nbrs(G, node) if status[node] in ("I", "R") else []
+        return rate, choose, infl, ["S", "E", "I", "R"]
     if name == "chooser":
         def rate(G, node, status, parameters):
             tau, gamma = parameters[0], parameters[1]
